@@ -44,7 +44,7 @@ FIELD_KINDS = ["flip_ident", "flip_key", "flip_auth", "flip_cands", "flip_cid", 
                "zero_key", "short_key", "ident_other"]
 TIME_KINDS = ["duplicate", "replay_retry", "late_removed", "slow_candidate"]
 KINDS = ["none"] + FIELD_KINDS + TIME_KINDS + ["cid_swap", "reorder", "garbage_cands", "dup_created",
-                                                     "relabel_as_created", "relabel_as_extended"]
+                                                     "relabel_as_created", "relabel_as_extended", "fallback_exits"]
 
 
 def z(n):
@@ -456,7 +456,9 @@ class Net(TunnelNet):
                 if c is not None and c.unverified_hop is not None:
                     net.attempts.setdefault(payload.circuit_id, []).append(
                         {"pid": payload.identifier, "X": bytes(payload.key), "peer": c.unverified_hop.peer,
-                         "x": c.unverified_hop.dh_secret, "n_hops": len(c._hops), "type": n})
+                         "x": c.unverified_hop.dh_secret, "n_hops": len(c._hops), "type": n,
+                         "addr": tuple(payload.node_addr) if n == "ExtendPayload" else None,
+                         "key": bytes(payload.node_public_key) if n == "ExtendPayload" else None})
             if n in ("CreatedPayload", "ExtendedPayload") and net.attack is not None:
                 outs = net.attack.on_send_cell(net, ov, target, payload)
             r = ov._c08_cur
@@ -853,7 +855,7 @@ class Attack:
         from ipv8.messaging.anonymization.payload import CreatedPayload, ExtendedPayload
         n = type(payload).__name__
         c = self.circuit
-        if self.pos == "network" or self.kind in ("none", "cid_swap", "reorder", "dup_created", "relabel_as_created",
+        if self.pos == "network" or self.kind in ("none", "fallback_exits", "cid_swap", "reorder", "dup_created", "relabel_as_created",
                                                   "relabel_as_extended"):
             return [payload]
         if self.fired and self.kind not in ("duplicate",):
@@ -904,7 +906,7 @@ class Attack:
     # -- the wire
     def on_wire(self, net, src, dst, data):
         c = self.circuit
-        if self.kind in ("none", "relabel_as_created", "relabel_as_extended") or len(data) < 30 or data[22] != 0:
+        if self.kind in ("none", "fallback_exits", "relabel_as_created", "relabel_as_extended") or len(data) < 30 or data[22] != 0:
             return [(dst, data)]
         cid, plaintext = struct.unpack_from("!I?", data, 23)
         origin_addr = net.origin.my_peer.address
@@ -1010,6 +1012,8 @@ def specs(ctx):
                     continue
                 if kind == "slow_candidate" and not (pos == "network" and hops >= 2 and k in (1, hops)):
                     continue
+                if kind == "fallback_exits" and not (pos == "network" and k == 2):
+                    continue
                 relay_role = (pos == "first" and k == 2) or (pos == "middle" and k == 3)
                 if kind == "relabel_as_created" and not ((pos == "network" and k >= 2) or relay_role):
                     continue
@@ -1032,14 +1036,29 @@ async def scenario(spec, base_seed, sweep=None):
     ref = [None]
     loop = asyncio.get_event_loop()
     info = {"spec": list(spec), "exits_ok": None}
+    import random as _random
+    _random.seed(rng.getrandbits(64))      # random.choice / shuffle / getrandbits of the nodes follow the case seed
     with Patches(ref, sym):
-        net = Net(sym)
+        net = Net(sym, n_exits=3) if kind == "fallback_exits" else Net(sym)
         ref[0] = net
         await net.start()
         o = net.origin
+        if kind == "fallback_exits":
+            # isolated relays: they know no candidate to offer, so the originator falls back to the exits it knows
+            # itself and names one by key AND address; the relays know none / only some of those exits
+            exits = {bytes(ov.my_peer.public_key.key_to_bin()) for n, ov in net.nodes.items() if n.startswith("exit")}
+            none_known = rng.random() < 0.5
+            for n, ov in net.nodes.items():
+                if not n.startswith("relay"):
+                    continue
+                ov.candidates.clear()
+                forget = set(exits) if none_known else set(rng.sample(sorted(exits), rng.randrange(1, len(exits) + 1)))
+                for p in list(ov.network.verified_peers):
+                    if bytes(p.public_key.key_to_bin()) in forget:
+                        ov.network.remove_peer(p)
         # slow_candidate: an honest but slow candidate answers after the retry to the next candidate went out; no
         # required exit, so that the last hop position has alternative candidates as well
-        ckw = {} if kind == "slow_candidate" else {"exit_flags": [2]}
+        ckw = {} if kind in ("slow_candidate", "fallback_exits") else {"exit_flags": [2]}
         c1 = net.new_circuit(o, hops, **ckw)
         two = kind in ("ident_other", "cid_swap", "reorder")
         c2 = net.new_circuit(o, hops, exit_flags=[2]) if two else None
@@ -1205,6 +1224,18 @@ def oracle(net, atk, info, report):
             if (a["type"] == "CreatePayload") != (a["n_hops"] == 0):
                 report("origin/create-after-first-hop" if a["type"] == "CreatePayload" else "origin/extend-without-hop",
                        "%s sent for circuit %d which has %d established hops (%s)" % (a["type"], cid, a["n_hops"], spec))
+    # (1c) the peer an extend selects is ONE peer: the key it names and the address it carries (when it carries
+    # one) belong together, as far as the originator knows its peers
+    for cid, atts in net.attempts.items():
+        for a in atts:
+            if a["type"] != "ExtendPayload" or a["addr"] in (None, NULL):
+                continue
+            named = net.by_key(a["key"])
+            if named is not None and tuple(named.my_peer.address) != tuple(a["addr"]):
+                at = net.node_of(a["addr"])
+                report("origin/extend-names-two-peers",
+                       "extend for circuit %d names the key of %s but carries the address of %s (%s)"
+                       % (cid, named._verif_name, at._verif_name if at is not None else a["addr"], spec))
     # (2) handlers that did not append a hop leave the originator's circuits alone
     adds = {id(r) for _, _, _, r, _ in net.hop_adds if r is not None}
     for r in net.recs:
@@ -1256,7 +1287,8 @@ def oracle(net, atk, info, report):
                 report("relay/extended-fields-altered", "extended does not carry the pending extend's ids and the created's key material (%s)" % spec)
     # (5) honest runs complete, with the selected peers in order, and carry data
     c1 = info.get("c1")
-    if spec[3] in ("none", "reorder", "duplicate", "dup_created", "relabel_as_created", "relabel_as_extended") and c1 is not None:
+    if spec[3] in ("none", "reorder", "duplicate", "dup_created", "relabel_as_created", "relabel_as_extended",
+                   "fallback_exits") and c1 is not None:
         if info["state"] != ("READY", spec[0]):
             report("honest/not-ready", "circuit not READY after an honest build (%s, state %s, %d hops)" % (spec, *info["state"]))
         else:
@@ -1405,7 +1437,7 @@ def run(ctx):
         dist[spec[3]] = dist.get(spec[3], 0) + 1
         for k, what in viol:
             ctx.violation(k, what, {"spec": list(spec), "seed": ctx.seed, "sweep": list(sweep) if sweep else None})
-        nontrivial = stats["fired"] > 0 or spec[3] in ("none", "sweep")
+        nontrivial = stats["fired"] > 0 or spec[3] in ("none", "sweep", "fallback_exits")
         ctx.count("%s/%s/%d/%d" % (spec[3], spec[1], spec[0], spec[2]), nontrivial=nontrivial)
         for c, e, label in cases:
             key = (c, e)
